@@ -12,8 +12,8 @@ def run(ctx):
     if facts is not None:
         ctx.prove(families=("processor",))
     proccommon.run_processor(ctx, "C14", "SCALE (C14 only): floodFamily - an own signed entry below quorum, then 10 050 valid observations by one "
-                             "guardian for distinct digests never observed locally written as ONE `flood` line (the model does not replay it: from "
-                             "there on the case is judged by the Spec clauses alone, on the implementation's own states), ticks at +299 s / +300 s / "
+                             "guardian for distinct digests never observed locally written as ONE `flood` line (expanded by the driver into the observations it stands for and "
+                             "replayed through the model; the state after the last one is compared), ticks at +299 s / +300 s / "
                              "+300 s. 'still lacks quorum' in the C14 clauses is a fact about the history (no quorum VAA published by the node for "
                              "the digest and none stored), not the entry's own `submitted` flag. Store-unavailable ticks (badger handle closed for the "
                              "duration of handleCleanup) in two soaks; soaks with stalls of 61 min and of 7 min / 3 h / 299 s / 26 h / 301 s between ticks.")
